@@ -97,6 +97,13 @@ func c03Full(archs []wsp.Arch) func(AState) []AOp {
 			}
 			ops = append(ops, d)
 		}
+		// one timestamp supplied twice, the LAST time without a value (NaN): the one supplied last is the one stored
+		for _, tg := range targets {
+			for _, age := range []int64{0, 1, int64(archs[0].Step)} {
+				ops = append(ops, AOp{Kind: "WB", Arch: tg, Ages: []int64{age, age + 2*int64(archs[0].Step), age}, Vals: []float64{4, 1, NaNVal}})
+				ops = append(ops, AOp{Kind: "WB", Arch: tg, Ages: []int64{age, age}, Vals: []float64{NaNVal, 4}})
+			}
+		}
 		g := AOp{Kind: "WBG", Arch: -1, Ages: []int64{archs[0].Ret(), 1, 0}, Vals: []float64{7, 1, -2}}
 		ops = append(ops, g)
 		return ops
